@@ -6902,6 +6902,19 @@ func (c *linkerContext) generateIsolatedHash(chunk *chunkInfo, channel chan []by
 	hashWriteLengthPrefixed(hash, chunk.outputSourceMap.Mappings)
 	hashWriteLengthPrefixed(hash, chunk.outputSourceMap.Suffix)
 
+	// The source map mode decides whether a trailing comment is added to the
+	// chunk after the hash has been computed, so it must affect the hash too.
+	if chunk.outputSourceMap.HasContent() {
+		hashWriteUint32(hash, uint32(c.options.SourceMap))
+	}
+
+	// The external legal comments file is named after the chunk, and a link to
+	// it may be added to the chunk after the hash has been computed.
+	if len(chunk.externalLegalComments) > 0 {
+		hashWriteUint32(hash, uint32(c.options.LegalComments))
+		hashWriteLengthPrefixed(hash, chunk.externalLegalComments)
+	}
+
 	// Store the hash so far. All other chunks that import this chunk will mix
 	// this hash into their final hash to ensure that the import path changes
 	// if this chunk (or any dependencies of this chunk) is changed.
